@@ -18,6 +18,9 @@ pub use fse_decoder::*;
 
 pub mod fse_encoder;
 
+#[cfg(feature = "verif_hooks")]
+pub mod verif_fse;
+
 #[test]
 fn tables_equal() {
     let probs = &[0, 0, -1, 3, 2, 2, (1 << 6) - 8];
